@@ -106,12 +106,6 @@ type Conn struct {
 	enc *HPACK
 	dec *HPACK
 
-	// block is how far the read loop is into the header block that is
-	// arriving. It belongs to the connection rather than to a request: a block
-	// is never interleaved with anything else (RFC 7540 6.10), and it has to be
-	// decoded to its end whether or not anybody still waits for the response.
-	block headerBlock
-
 	nextID uint32
 
 	maxWindow     int32
@@ -188,6 +182,15 @@ type Conn struct {
 	done chan struct{}
 
 	closed uint64
+
+	// block is how far the read loop is into the header block that is
+	// arriving. It belongs to the connection rather than to a request: a block
+	// is never interleaved with anything else (RFC 7540 6.10), and it has to be
+	// decoded to its end whether or not anybody still waits for the response.
+	//
+	// It comes after closed, which is used with 64-bit atomics and has to stay
+	// at an offset that is a multiple of 8 on 32-bit platforms.
+	block headerBlock
 }
 
 // setLastErr records the error that ended the connection, keeping the first one
